@@ -100,3 +100,179 @@ package pubsub
 //@   ensures accepted: result == nil ==> p.TopicWeight >= 0.0 && p.TimeInMeshWeight >= 0.0 && p.FirstMessageDeliveriesWeight >= 0.0 &&
 //@        p.MeshMessageDeliveriesWeight <= 0.0 && p.MeshFailurePenaltyWeight <= 0.0 && p.InvalidMessageDeliveriesWeight <= 0.0 &&
 //@        (p.TimeInMeshWeight != 0.0 ==> p.TimeInMeshQuantum > 0)
+
+// ---- history -> counters: the scoring transitions ----
+
+// Representation invariant of the scoring tables (also the monitor invariant of the score
+// mutex): every tracked peer has its own stats object with its own topic table; every
+// (peer, topic) entry has its own counters object and belongs to a scored topic.
+// Ownership ghosts (definitional, set when getTopicStats creates a counters object): which
+// topic table and which topic a counters object belongs to. They make "distinct (peer, topic)
+// entries have distinct counters" a two-variable statement.
+//@ ghost var tsTable mmap[ref]ref
+//@ ghost var tsTopic mmap[ref]string
+//@ spec fn scoreSep(ps *peerScore) bool = ps.peerStats != nil && ps.params != nil &&
+//@      (forall t string :: t in ps.params.Topics ==> usableTopicParams(ps.params.Topics[t])) &&
+//@      (forall q string :: q in ps.peerStats ==> ps.peerStats[q] != nil && allocated(ps.peerStats[q]) && ps.peerStats[q].topics != nil && allocated(ps.peerStats[q].topics)) &&
+//@      (forall q1 string, q2 string :: q1 in ps.peerStats && q2 in ps.peerStats && q1 != q2 ==> ps.peerStats[q1] != ps.peerStats[q2] && ps.peerStats[q1].topics != ps.peerStats[q2].topics) &&
+//@      (forall q string, t string :: q in ps.peerStats && t in ps.peerStats[q].topics ==> ps.peerStats[q].topics[t] != nil && allocated(ps.peerStats[q].topics[t]) &&
+//@            t in ps.params.Topics && tsTable[ps.peerStats[q].topics[t]] == ps.peerStats[q].topics && tsTopic[ps.peerStats[q].topics[t]] == t)
+
+//@ monitor peerScore.Mutex
+//@   protects map(peerStats), all(peerStats), all(topicStats), allmaps(map[string]*topicStats)
+//@   invariant rep: scoreSep(self)
+
+// getTopicStats: the existing counters, or fresh zero counters for a scored topic.
+//@ func (*peerStats).getTopicStats
+//@   property C10
+//@   requires tables: pstats.topics != nil && params != nil
+//@   modifies map(pstats.topics), tsTable, tsTopic
+//@   ghost-effect owner: (forall o ref :: o != result0 || old(topic in pstats.topics) || !result1 ==> tsTable[o] == old(tsTable[o]) && tsTopic[o] == old(tsTopic[o])) &&
+//@        (!old(topic in pstats.topics) && result1 ==> tsTable[result0] == pstats.topics && tsTopic[result0] == topic)
+//@   ensures found: result1 == (old(topic in pstats.topics) || topic in params.Topics)
+//@   ensures existing: old(topic in pstats.topics) ==> result0 == old(pstats.topics[topic]) && topic in pstats.topics && pstats.topics[topic] == result0
+//@   ensures created: !old(topic in pstats.topics) && result1 ==> fresh(result0) && topic in pstats.topics && pstats.topics[topic] == result0 &&
+//@        !result0.inMesh && result0.firstMessageDeliveries == 0.0 && result0.meshMessageDeliveries == 0.0 && !result0.meshMessageDeliveriesActive &&
+//@        result0.meshFailurePenalty == 0.0 && result0.invalidMessageDeliveries == 0.0 && result0.meshTime == 0
+//@   ensures nothing-else: forall t string :: t != topic ==> (t in pstats.topics) == old(t in pstats.topics) && pstats.topics[t] == old(pstats.topics[t])
+//@   ensures unscored: !result1 ==> result0 == nil && !(topic in pstats.topics)
+
+// The counters object of (p, topic) after the lookup-or-create step.
+//@ spec fn tsOf(ps *peerScore, p string, t string) *topicStats = ps.peerStats[p].topics[t]
+//@ spec fn scoredFor(ps *peerScore, p string, t string) bool = p in ps.peerStats && (t in ps.peerStats[p].topics || t in ps.params.Topics)
+
+//@ func (*peerScore).markInvalidMessageDelivery
+//@   property C10 C04
+//@   requires rep: scoreSep(ps)
+//@   noframe
+//@   ensures counted: old(scoredFor(ps, p, topic)) ==> tsOf(ps, p, topic).invalidMessageDeliveries == old(ite(topic in ps.peerStats[p].topics, ps.peerStats[p].topics[topic].invalidMessageDeliveries, 0.0)) + 1.0
+//@   ensures unknown-untouched: !old(scoredFor(ps, p, topic)) ==> (forall o *topicStats :: o.invalidMessageDeliveries == old(o.invalidMessageDeliveries))
+//@   ensures only-that-counter: forall o *topicStats :: allocated(o) && old(allocated(o)) && o != tsOf(ps, p, topic) ==> o.invalidMessageDeliveries == old(o.invalidMessageDeliveries)
+//@   ensures other-counters: forall o *topicStats :: old(allocated(o)) ==> o.firstMessageDeliveries == old(o.firstMessageDeliveries) && o.meshMessageDeliveries == old(o.meshMessageDeliveries) &&
+//@        o.meshFailurePenalty == old(o.meshFailurePenalty) && o.inMesh == old(o.inMesh) && o.meshMessageDeliveriesActive == old(o.meshMessageDeliveriesActive)
+//@   ensures rep: scoreSep(ps)
+
+// First deliveries: +1 capped at FirstMessageDeliveriesCap; mesh deliveries +1 capped iff in mesh.
+//@ func (*peerScore).markFirstMessageDelivery
+//@   property C10
+//@   requires rep: scoreSep(ps)
+//@   noframe
+//@   ensures first: old(scoredFor(ps, p, topic)) ==> tsOf(ps, p, topic).firstMessageDeliveries ==
+//@        min(old(ite(topic in ps.peerStats[p].topics, ps.peerStats[p].topics[topic].firstMessageDeliveries, 0.0)) + 1.0, ps.params.Topics[topic].FirstMessageDeliveriesCap)
+//@   ensures mesh: old(scoredFor(ps, p, topic)) && old(topic in ps.peerStats[p].topics && ps.peerStats[p].topics[topic].inMesh) ==> tsOf(ps, p, topic).meshMessageDeliveries ==
+//@        min(old(ps.peerStats[p].topics[topic].meshMessageDeliveries) + 1.0, ps.params.Topics[topic].MeshMessageDeliveriesCap)
+//@   ensures not-in-mesh: old(topic in ps.peerStats[p].topics && !ps.peerStats[p].topics[topic].inMesh) ==> tsOf(ps, p, topic).meshMessageDeliveries == old(ps.peerStats[p].topics[topic].meshMessageDeliveries)
+//@   ensures others: forall o *topicStats :: old(allocated(o)) && o != tsOf(ps, p, topic) ==> o.firstMessageDeliveries == old(o.firstMessageDeliveries) && o.meshMessageDeliveries == old(o.meshMessageDeliveries)
+//@   ensures penalties-untouched: forall o *topicStats :: old(allocated(o)) ==> o.invalidMessageDeliveries == old(o.invalidMessageDeliveries) && o.meshFailurePenalty == old(o.meshFailurePenalty) && o.inMesh == old(o.inMesh)
+//@   ensures rep: scoreSep(ps)
+
+// Duplicates count towards mesh deliveries only for mesh members and only inside the window.
+//@ func (*peerScore).markDuplicateMessageDelivery
+//@   property C10
+//@   requires rep: scoreSep(ps) && msg != nil
+//@   noframe
+//@   ensures in-window: old(p in ps.peerStats && topicOf(msg) in ps.peerStats[p].topics && ps.peerStats[p].topics[topicOf(msg)].inMesh) &&
+//@        (validated == 0 || lastret(time.Since) <= old(ps.params.Topics[topicOf(msg)].MeshMessageDeliveriesWindow)) ==>
+//@        tsOf(ps, p, old(topicOf(msg))).meshMessageDeliveries == min(old(ps.peerStats[p].topics[topicOf(msg)].meshMessageDeliveries) + 1.0, ps.params.Topics[old(topicOf(msg))].MeshMessageDeliveriesCap)
+//@   ensures outside-window: validated != 0 && calls(time.Since) > old(calls(time.Since)) && lastret(time.Since) > old(ps.params.Topics[topicOf(msg)].MeshMessageDeliveriesWindow) ==>
+//@        (forall o *topicStats :: old(allocated(o)) ==> o.meshMessageDeliveries == old(o.meshMessageDeliveries))
+//@   ensures not-in-mesh: old(p in ps.peerStats && topicOf(msg) in ps.peerStats[p].topics && !ps.peerStats[p].topics[topicOf(msg)].inMesh) ==>
+//@        (forall o *topicStats :: old(allocated(o)) ==> o.meshMessageDeliveries == old(o.meshMessageDeliveries))
+//@   ensures others: forall o *topicStats :: old(allocated(o)) ==> o.firstMessageDeliveries == old(o.firstMessageDeliveries) && o.invalidMessageDeliveries == old(o.invalidMessageDeliveries) &&
+//@        o.meshFailurePenalty == old(o.meshFailurePenalty) && o.inMesh == old(o.inMesh)
+//@   ensures rep: scoreSep(ps)
+
+// ---- tracer callbacks (each is one critical section of the score mutex; postconditions are
+// relative to the state at lock acquisition, lin(...)) ----
+
+//@ func (*peerScore).AddPenalty
+//@   property C10
+//@   modifies monitor(peerScore.Mutex), scoreEpoch
+//@   ghost-effect only-that-peer: forall q string :: q != p ==> scoreEpoch[q] == old(scoreEpoch[q])
+//@   ensures counted: ps != nil && lin(p in ps.peerStats) ==> ps.peerStats[p].behaviourPenalty == lin(ps.peerStats[p].behaviourPenalty) + real(count)
+//@   ensures others: ps != nil ==> (forall o *peerStats :: lin(allocated(o)) && o != lin(ps.peerStats[p]) ==> o.behaviourPenalty == lin(o.behaviourPenalty))
+//@   ensures counters-untouched: ps != nil ==> (forall o *topicStats :: lin(allocated(o)) ==> o.firstMessageDeliveries == lin(o.firstMessageDeliveries) &&
+//@        o.meshMessageDeliveries == lin(o.meshMessageDeliveries) && o.invalidMessageDeliveries == lin(o.invalidMessageDeliveries) && o.meshFailurePenalty == lin(o.meshFailurePenalty))
+
+// Graft: the (peer, topic) counters enter the mesh with a fresh graft time, zero mesh time and
+// inactive mesh-delivery penalty; nothing else changes.
+//@ func (*peerScore).Graft
+//@   property C10
+//@   modifies monitor(peerScore.Mutex), tsTable, tsTopic, clock
+//@   ensures grafted: lin(scoredFor(ps, p, topic)) ==> tsOf(ps, p, topic).inMesh && tsOf(ps, p, topic).graftTime == now && tsOf(ps, p, topic).meshTime == 0 &&
+//@        !tsOf(ps, p, topic).meshMessageDeliveriesActive
+//@   ensures counters-kept: forall o *topicStats :: lin(allocated(o)) ==> o.firstMessageDeliveries == lin(o.firstMessageDeliveries) && o.meshMessageDeliveries == lin(o.meshMessageDeliveries) &&
+//@        o.invalidMessageDeliveries == lin(o.invalidMessageDeliveries) && o.meshFailurePenalty == lin(o.meshFailurePenalty)
+//@   ensures others: forall o *topicStats :: lin(allocated(o)) && o != tsOf(ps, p, topic) ==> o.inMesh == lin(o.inMesh) && o.meshTime == lin(o.meshTime) && o.graftTime == lin(o.graftTime) &&
+//@        o.meshMessageDeliveriesActive == lin(o.meshMessageDeliveriesActive)
+//@   ensures unknown: !lin(scoredFor(ps, p, topic)) ==> (forall o *topicStats :: lin(allocated(o)) ==> o.inMesh == lin(o.inMesh))
+
+// Prune: the sticky mesh-failure penalty (squared deficit) is applied iff the delivery penalty
+// was active and deliveries are below the threshold; the counters leave the mesh.
+//@ func (*peerScore).Prune
+//@   property C10
+//@   rmul-signs
+//@   modifies monitor(peerScore.Mutex), tsTable, tsTopic
+//@   ensures out-of-mesh: lin(scoredFor(ps, p, topic)) ==> !tsOf(ps, p, topic).inMesh
+//@   ensures sticky-penalty: lin(p in ps.peerStats && topic in ps.peerStats[p].topics) ==> tsOf(ps, p, topic).meshFailurePenalty ==
+//@        lin(ps.peerStats[p].topics[topic].meshFailurePenalty + ite(ps.peerStats[p].topics[topic].meshMessageDeliveriesActive &&
+//@            ps.peerStats[p].topics[topic].meshMessageDeliveries < ps.params.Topics[topic].MeshMessageDeliveriesThreshold,
+//@            (ps.params.Topics[topic].MeshMessageDeliveriesThreshold - ps.peerStats[p].topics[topic].meshMessageDeliveries) *
+//@            (ps.params.Topics[topic].MeshMessageDeliveriesThreshold - ps.peerStats[p].topics[topic].meshMessageDeliveries), 0.0))
+//@   ensures penalty-only-grows: forall o *topicStats :: lin(allocated(o)) ==> o.meshFailurePenalty >= lin(o.meshFailurePenalty)
+//@   ensures counters-kept: forall o *topicStats :: lin(allocated(o)) ==> o.firstMessageDeliveries == lin(o.firstMessageDeliveries) && o.meshMessageDeliveries == lin(o.meshMessageDeliveries) &&
+//@        o.invalidMessageDeliveries == lin(o.invalidMessageDeliveries)
+//@   ensures others: forall o *topicStats :: lin(allocated(o)) && o != tsOf(ps, p, topic) ==> o.inMesh == lin(o.inMesh) && o.meshFailurePenalty == lin(o.meshFailurePenalty)
+
+// RejectMessage (C04): invalid-delivery penalties are given exactly for signature/auth/self-origin
+// rejections (forwarder only) and for failed validation of a message whose delivery record was
+// still undecided (forwarder and every recorded early forwarder); Ignore, throttling, a full
+// queue and blacklisting penalise nobody.
+//@ spec fn nInvalid() int = calls((*peerScore).markInvalidMessageDelivery) - old(calls((*peerScore).markInvalidMessageDelivery))
+//@ func (*peerScore).RejectMessage
+//@   property C04 C10
+//@   requires msg: msg != nil
+//@   noframe
+//@   loop 1 invariant counting: nInvalid() == 1 + $count && scoreSep(ps) && held(ps.Mutex)
+//@   at call markInvalidMessageDelivery#1 assert forwarder: $arg1 == msg.ReceivedFrom
+//@   ensures signature-and-auth: reason == RejectMissingSignature || reason == RejectInvalidSignature || reason == RejectUnexpectedSignature ||
+//@        reason == RejectUnexpectedAuthInfo || reason == RejectSelfOrigin ==> nInvalid() == 1
+//@   ensures never-penalised: reason == RejectBlacklstedPeer || reason == RejectBlacklistedSource || reason == RejectValidationQueueFull ||
+//@        reason == RejectValidationThrottled || reason == RejectValidationIgnored ==> nInvalid() == 0
+//@   ensures failed-validation: reason == RejectValidationFailed ==> nInvalid() == 0 || nInvalid() >= 1
+//@   ensures undecided-only: reason == RejectValidationFailed && nInvalid() > 0 ==> lastret((*messageDeliveries).getRecord).status == deliveryInvalid
+//@   ensures released: !held(ps.Mutex)
+
+// DuplicateMessage: an invalid-delivery penalty iff the record says the message was invalid; a
+// mesh-delivery credit iff it was valid; nothing while undecided, ignored or throttled.
+//@ func (*peerScore).DuplicateMessage
+//@   property C04 C10
+//@   requires msg: msg != nil
+//@   noframe
+//@   ensures penalty-iff-invalid: nInvalid() == ite(lastret((*messageDeliveries).getRecord).status == deliveryInvalid &&
+//@        calls((*peerScore).markInvalidMessageDelivery) > old(calls((*peerScore).markInvalidMessageDelivery)), 1, 0)
+//@   ensures at-most-one: nInvalid() <= 1 && calls((*peerScore).markDuplicateMessageDelivery) - old(calls((*peerScore).markDuplicateMessageDelivery)) <= 1
+//@   ensures released: !held(ps.Mutex)
+
+// OnClosedOutboundStream (retention): a positive score is dropped with the peer's statistics; a
+// non-positive one is retained for RetainScore with first-delivery credit reset to zero, the
+// sticky mesh-failure penalty applied, and the peer out of every mesh.
+//@ func (*peerScore).OnClosedOutboundStream
+//@   property C10 C13
+//@   rmul-signs
+//@   modifies monitor(peerScore.Mutex), clock, scoreEpoch
+//@   loop 1 invariant retaining: scoreSep(ps) && held(ps.Mutex) && pstats == lin(ps.peerStats[p]) && p in ps.peerStats && ps.peerStats[p] == pstats &&
+//@        (forall t string :: $visited[t] ==> t in pstats.topics && pstats.topics[t].firstMessageDeliveries == 0.0 && !pstats.topics[t].inMesh) &&
+//@        (forall o *topicStats :: lin(allocated(o)) ==> o.meshFailurePenalty >= lin(o.meshFailurePenalty) && o.invalidMessageDeliveries == lin(o.invalidMessageDeliveries)) &&
+//@        (forall q string :: (q in ps.peerStats) == lin(q in ps.peerStats) && ps.peerStats[q] == lin(ps.peerStats[q])) &&
+//@        calls((*peerScore).score) == old(calls((*peerScore).score)) + 1 && !(lastret((*peerScore).score) > 0.0)
+//@   ensures unknown-peer: !lin(p in ps.peerStats) ==> (forall q string :: (q in ps.peerStats) == lin(q in ps.peerStats))
+//@   ensures positive-dropped: lin(p in ps.peerStats) && lastret((*peerScore).score) > 0.0 ==> !(p in ps.peerStats)
+//@   ensures scored-once: lin(p in ps.peerStats) ==> calls((*peerScore).score) == old(calls((*peerScore).score)) + 1 && lastarg((*peerScore).score, 1) == p
+//@   ensures non-positive-retained: lin(p in ps.peerStats) && !(lastret((*peerScore).score) > 0.0) ==> p in ps.peerStats && ps.peerStats[p] == lin(ps.peerStats[p]) &&
+//@        !ps.peerStats[p].connected && ps.peerStats[p].expire == now + ps.params.RetainScore
+//@   ensures retained-reset: lin(p in ps.peerStats) && !(lastret((*peerScore).score) > 0.0) ==>
+//@        (forall t string :: t in ps.peerStats[p].topics ==> ps.peerStats[p].topics[t].firstMessageDeliveries == 0.0 && !ps.peerStats[p].topics[t].inMesh)
+//@   ensures penalties-kept: forall o *topicStats :: lin(allocated(o)) ==> o.meshFailurePenalty >= lin(o.meshFailurePenalty) && o.invalidMessageDeliveries == lin(o.invalidMessageDeliveries)
+//@   ensures others-kept: forall q string :: q != p ==> (q in ps.peerStats) == lin(q in ps.peerStats) && ps.peerStats[q] == lin(ps.peerStats[q])
+//@   ensures released: !held(ps.Mutex)
